@@ -336,6 +336,17 @@ fn run(ctx: &RunCtx) {
         if avoid_attr && rules.iter().any(|r| matches!(r, RuleSpec::Append { end: false, .. })) && lex(&source, Mode::Luau).map(|l| l.tokens.first().map(|t| t.text.starts_with('@')).unwrap_or(false)).unwrap_or(false) {
             return CaseResult::Discard("avoided: known finding append-start-after-attributes");
         }
+        if avoid_ellipsis && rules.iter().any(|r| matches!(r, RuleSpec::Append { end: true, .. })) {
+            // the comment appended at the end is attached to the last token: when that token is the
+            // `...` of a type pack it is dropped with the rest of that token's trivia
+            if let Ok(p) = luasyn::parse::parse_with_options(&source, Mode::Luau, luasyn::parse::ParseOptions { check_loop_context: false, check_vararg_context: false }) {
+                if let Some(last) = p.tokens.iter().rev().find(|t| t.kind != TokKind::Eof) {
+                    if last.text == "..." && p.type_spans.iter().any(|(a, b)| last.start >= *a && last.end <= *b) {
+                        return CaseResult::Discard("avoided: known finding pack-ellipsis-trivia");
+                    }
+                }
+            }
+        }
         let appends = rules.iter().any(|r| matches!(r, RuleSpec::Append { .. }));
         if avoid_merge && rules.contains(&RuleSpec::RemoveSpaces) && (appends || has_line_comment_followed_by_comment(&source)) {
             return CaseResult::Discard("avoided: known finding remove-spaces-merges-line-comments");
